@@ -274,8 +274,8 @@ def main():
     run.require("renderings", "stochastic_output_unit_checks", "metamorphic_comparisons", "dstatedt_checks", "trajectory_checks", "form_dict", "form_ctor",
                 "contract:compute_conversion_factor")
     thorough = tier() == "thorough"
-    n_total = 3000 if thorough else 720
-    n_py = 600 if thorough else 180
+    n_total = 6000 if thorough else 720
+    n_py = 1500 if thorough else 180
     cases = [{"seed": seed(), "idx": i, "python": i < n_py, "renderings": 4 + (i % 5)} for i in range(n_total)]
     res = pmap("vf.checks.c04:run_case", cases, cpu_budget=240)
     for c, r_ in zip(cases, res):
